@@ -9,6 +9,7 @@ import (
 
 	"google.golang.org/grpc/grpclog"
 
+	"verif.local/sim/mesim"
 	"verif.local/sim/poolsim"
 	"verif.local/sim/simkit"
 )
@@ -16,6 +17,7 @@ import (
 func engines() map[string]simkit.Engine {
 	return map[string]simkit.Engine{
 		"poolsim": poolsim.Engine{},
+		"mesim":   mesim.Engine{},
 	}
 }
 
